@@ -9,6 +9,7 @@ import Frugal.Props.Inst.F_skeleton_decoder
 import Frugal.Props.Inst.F_valid_minWire
 import Frugal.Props.Inst.F_valid_minWireFixed
 import Frugal.Props.Inst.F_valid_skip
+import Frugal.Props.Inst.F_skeleton_descTable
 namespace Frugal.C05
 open Frugal
 
@@ -184,4 +185,12 @@ example : decodeFixed .i32 [1, 2] = .panic .bounds := by simp [decodeFixed, rd32
     control structure (guards, switches, loops, returns, call sequence): regenerated fingerprint =
     committed fingerprint of the unchanged tree -/
 theorem model_written_from_this_code : Generated.facts.decoderSkeleton = Skeleton.decoder := Instances.skeleton_decoder
+/-- the schema the theorems quantify over reaches the codec through the descriptor tables (field index
+    by id, required ids, offsets, per-field flags and fixed sizes, the type node's tag / size / alignment /
+    element nodes): the declarations `structDesc`, `tField`, `tType` and the functions that fill them in
+    (`fromDefsFields`, `fromDefsField`, `GetField`, `newTType`) are, as full text, those the model and the
+    correspondence runs were validated against (regenerated fingerprint) -/
+theorem descriptor_tables_built_as_modelled : Generated.facts.descTableSkeleton = Skeleton.descTable :=
+  Instances.skeleton_descTable
+
 end Frugal.C05
